@@ -19,6 +19,51 @@ PROPS['C02'] = dict(
     level_text='Bounded symbolic model checking of the real evaluation code: for every window/order/grid size inside the bound, all real-valued grids, coefficients and abscissae are covered by solver-decided paths; the claim is an SMT obligation per path. Right level because the property quantifies over a continuum of inputs with rare special points (x on a grid point, x at either end).',
     level_note='Exact real arithmetic stands in for the scalar type (not IEEE); structure (window, order, grid size) enumerated up to the bound; trusted: g++, libz3, sym.h/harness.h, the oracle in C02_eval.cpp.')
 
+PROPS['C03'] = dict(
+    engine='A', technique='symbolic-scalar execution of the real templates (T = z3 real terms) + QF_NRA obligations, exact-rational replay',
+    harnesses=[dict(name='C03_arith', src='C03_arith.cpp',
+                    defs=dict(quick=['-DMAXN=5', '-DMAXO=2', '-DLCN=4'], thorough=['-DMAXN=6', '-DMAXO=3', '-DLCN=5']),
+                    functions=['Spline::operator+', 'Spline::operator-', 'Spline::operator*(Spline)', 'Spline::operator*(T)', 'Spline::operator/(T)', 'Spline::operator-()',
+                               'Spline::operator+=', 'Spline::operator-=', 'Spline::operator*=', 'Spline::operator/=', 'Spline::operator=(lower order)', 'operator*(T,Spline)',
+                               'linearCombination (iterator and collection overloads)', 'internal::add', 'internal::changearraysize', 'internal::make_array',
+                               'Support::calcUnion', 'Support::calcIntersection', 'Support::intervalIndexFromAbsolute', 'Support::absoluteFromRelative', 'Spline::Spline (validation)'])],
+    bounds=dict(quick='grids of 2..5 symbolic points; every ordered pair of windows (empty, point-like, nested, overlapping, touching, gap); order pairs {0,1,2}^2; in-place forms from an arbitrary prior state and sequences of up to 4 updates; linearCombination of 2 and 3 splines (all window triples on grids <=4, third spline at every position), symbolic scalars',
+                thorough='grids of 2..6 points, order pairs {0..3}^2, linearCombination on grids <=5'),
+    outside='orders/grids above the bound; collections of more than 3 splines; floating-point rounding (C16)',
+    assumptions=['grid points strictly increasing reals', 'scalar divisor non-zero', 'exact real arithmetic (sym::Real), not IEEE'],
+    trusted=A_TRUST,
+    level_text='Bounded symbolic model checking of the real arithmetic operators: every placement of two (three) supports on grids up to the bound, with all coefficients, grid points and scalars symbolic; result compared on every grid interval with the pointwise operation on the operand pieces at a symbolic x. In-place operators are checked as one step from an arbitrary pre-state, which covers update histories of any length.',
+    level_note='Exact real arithmetic; orders, windows and grid size enumerated to the bound; trusted: g++, libz3, sym.h/harness.h, oracle (piece_at power sums) in C03_arith.cpp.')
+
+PROPS['C04'] = dict(
+    engine='A', technique='symbolic-scalar execution of the real templates (T = z3 real terms) + QF_NRA obligations, exact-rational replay',
+    harnesses=[dict(name='C04_primops', src='C04_primops.cpp',
+                    defs=dict(quick=['-DMAXN=4', '-DMAXO=3', '-DMAXD=4'], thorough=['-DMAXN=5', '-DMAXO=5', '-DMAXD=6']),
+                    functions=['Derivative<n>::transform', 'Position<n>::transform', 'Position<n>::expandPower', 'IdentityOperator::transform', 'operators::transformSpline',
+                               'operator*(Operator,Spline)', 'internal::faculty', 'internal::facultyRatio', 'internal::binomialCoefficient', 'Spline::operator=='])],
+    bounds=dict(quick='n = 0..4 for Dx<n>/X<n>, spline orders 0..3 (35 template pairs incl. n = order and n > order), every window of grids with 2..4 symbolic points (arbitrary spacing and distance from the origin)',
+                thorough='n = 0..6, orders 0..5, grids of 2..5 points'),
+    outside='n and orders above the bound; floating-point rounding (C16)',
+    assumptions=['grid points strictly increasing reals', 'exact real arithmetic (sym::Real), not IEEE'],
+    trusted=A_TRUST,
+    level_text='Bounded symbolic model checking: for each (n, order) template pair and window the real transform is run on symbolic coefficients/grid and compared at a symbolic x with the n-th derivative / x^n multiple of the operand piece taken in the origin monomial basis by the harness.',
+    level_note='Exact real arithmetic; (n, order) pairs and windows enumerated to the bound; trusted: g++, libz3, sym.h/harness.h, origin-basis oracle in harness.h/C04_primops.cpp.')
+
+PROPS['C05'] = dict(
+    engine='A', technique='symbolic-scalar execution of the real operator templates over an enumerated set of expression trees + QF_NRA obligations against a reference interpreter, exact-rational replay',
+    generated=[dict(mode='c05', ntu=16, template=dict(
+        defs=dict(quick=['-DMAXN=4', '-DMAXO=2', '-DFO=1'], thorough=['-DMAXN=5', '-DMAXO=3', '-DFO=1', '-DFO2=2']),
+        functions=['OperatorProduct::transform', 'OperatorSum::transform/add', 'ScalarMultiplication::transform', 'operator*(O1,O2)', 'operator+(O1,O2)', 'operator-(O1,O2)',
+                   'operator*(S,O)', 'operator*(O,S)', 'operator/(O,S)', 'operator+(O,S)', 'operator+(S,O)', 'operator-(O,S)', 'operator-(S,O)', 'operator-(O)',
+                   'SplineOperator::transform', 'Derivative::transform', 'Position::transform', 'IdentityOperator::transform', 'transformSpline']))],
+    bounds=dict(quick='expression trees: 10 named (commutator, hydrogen-like, generator, ...) + all 198 trees with one composite node over the leaves {I, X<1>, X<2>, Dx<1>, Dx<2>, SplineOperator(v)} with scalars of type T (symbolic) and int (literals, incl. int divisors) + 160 seed-selected trees with two composite nodes; operand orders 0..2; factor order 1; every operand window x every factor window on grids of 2..4 symbolic points',
+                thorough='all 2808 two-level trees of the generator, operand orders 0..3, factor orders 1 and 2, grids of 2..5 points'),
+    outside='deeper trees than two composite nodes above the leaves; X<n>/Dx<n> with n>2 inside expressions (covered alone by C04); lvalue operator operands (do not compile); scalar types other than T and int',
+    assumptions=['grid points strictly increasing reals', 'T-typed divisor non-zero', 'exact real arithmetic (sym::Real), not IEEE'],
+    trusted=A_TRUST + ['symt/gen/gen_exprs.py (tree enumeration and reference interpreter)'],
+    level_text='Bounded symbolic model checking over programs: each enumerated expression tree is a distinct template instantiation of the real operator classes; it is applied to a spline with symbolic coefficients on a symbolic grid and compared on every interval at a symbolic x with a 40-line reference interpreter working on origin-basis polynomials.',
+    level_note='Exact real arithmetic; trees, orders and windows enumerated to the bound (quick: seeded subset of the two-level trees); trusted: g++, libz3, sym.h/harness.h, gen_exprs.py reference interpreter.')
+
 _NOT_BUILT = 'check not built yet in this round (planned, see DESIGN.md section 5)'
 NOT_APPLICABLE = {
     'C16': 'floating-point forward-error bound: bit-precise FP or (1+delta) NRA encodings of even the smallest instance return unknown/timeout on every installed solver (DESIGN.md section 7)',
